@@ -80,7 +80,9 @@ theorem write_intact (a : Addr) (data : List Byte) (s : State) (h : NoWrap a dat
   rw [hw]
   exact ⟨rfl, hval⟩
 
-/-- a two-page-crossing write whose hypotheses hold: all pages mapped r-x, 5000 bytes from 0x401ffa -/
+/-- a two-page-crossing write whose hypotheses hold: all pages mapped r-x, 5000 bytes from 0x401ffa
+    (the same two hypotheses are those of `final_perms`, `no_page_left_writable` and `copy_never_faults` below; the
+    extra hypothesis of `no_page_left_writable`, "no page writable before", holds in this state too) -/
 example : ∃ s : State, NoWrap 0x401ffa#64 (List.replicate 5000 (0x90#8)).length ∧
     MappedAll s (pages 0x401ffa#64 (List.replicate 5000 (0x90#8)).length) :=
   ⟨⟨fun _ => 0, fun _ => some RX⟩, by simp only [List.length_replicate]; unfold NoWrap; decide, fun _ _ => rfl⟩
@@ -215,6 +217,53 @@ theorem unpatch_touches_only (origin : Addr) (originBytes : List Byte) (s : Stat
   apply write_frame
   intro j hj e
   exact hq ⟨j, hj, e⟩
+
+/-- **removing a mock restores the exact bytes**: if `originBytes` are the bytes that were at the entry before (what
+    `checkAndReadOriginBytes` read, jumpdata.go:66) then after `Apply` followed by `Unpatch` the whole memory is what it
+    was, and the touched pages are r-x. -/
+theorem unpatch_restores (origin to : Addr) (funcSize : Nat) (s : State) (originBytes : List Byte)
+    (hsz : 13 < funcSize) (hlen : originBytes.length = 13)
+    (hob : ∀ j (hj : j < originBytes.length), originBytes[j] = s.mem (origin + BitVec.ofNat 64 j))
+    (h : NoWrap origin 13) (hm : MappedAll s (pages origin 13)) :
+    ∃ s1, install origin to funcSize none s = (s1, InstallRes.done Outcome.ok) ∧
+      (unpatch origin originBytes s1).2 = Outcome.ok ∧ (unpatch origin originBytes s1).1.mem = s.mem := by
+  have hnot : ¬ funcSize ≤ 13 := by omega
+  have hjl := jump_len origin to
+  have hN : NoWrap origin (Gen.Amd64.jmpToFunctionValue origin to).length := by rw [hjl]; exact h
+  have hM : MappedAll s (pages origin (Gen.Amd64.jmpToFunctionValue origin to).length) := by rw [hjl]; exact hm
+  obtain ⟨s1, hw, hperm, _⟩ := writeTo_spec origin (Gen.Amd64.jmpToFunctionValue origin to) s hN hM
+  refine ⟨s1, ?_, ?_⟩
+  · simp only [install, genJumpData, jump_len, ge_iff_le, hnot, if_false, hw]
+  · have hN2 : NoWrap origin originBytes.length := by rw [hlen]; exact h
+    have hM2 : MappedAll s1 (pages origin originBytes.length) := by
+      intro p hp
+      rw [hlen] at hp
+      rw [hperm, hjl]
+      simp only [setMany, hp, if_true, Option.isSome_some]
+    have hi := write_intact origin originBytes s1 hN2 hM2
+    refine ⟨hi.1, ?_⟩
+    funext q
+    by_cases hq : ∃ j, j < originBytes.length ∧ q = origin + BitVec.ofNat 64 j
+    · obtain ⟨j, hj, rfl⟩ := hq
+      show (writeTo origin originBytes s1).1.mem _ = _
+      rw [hi.2 j hj, hob j hj]
+    · have hq' : ∀ j, j < originBytes.length → q ≠ origin + BitVec.ofNat 64 j := fun j hj e => hq ⟨j, hj, e⟩
+      show (writeTo origin originBytes s1).1.mem q = _
+      rw [write_frame origin originBytes s1 q hq']
+      have : (writeTo origin (Gen.Amd64.jmpToFunctionValue origin to) s).1.mem q = s.mem q := by
+        apply write_frame
+        intro j hj
+        rw [hjl] at hj
+        exact hq' j (by omega)
+      rw [hw] at this
+      exact this
+
+/-- the hypotheses of `unpatch_restores` hold for a 32-byte function of INT3 at 0x401fe0 in an all-r-x image -/
+example : ∃ (s : State) (ob : List Byte), ob.length = 13 ∧
+    (∀ j (hj : j < ob.length), ob[j] = s.mem (0x401fe0#64 + BitVec.ofNat 64 j)) ∧
+    NoWrap 0x401fe0#64 13 ∧ MappedAll s (pages 0x401fe0#64 13) :=
+  ⟨⟨fun _ => 0xcc#8, fun _ => some RX⟩, List.replicate 13 (0xcc#8), by simp,
+    fun j hj => by simp only [List.getElem_replicate], by unfold NoWrap; decide, fun _ _ => rfl⟩
 
 /-- the hypotheses of `install_touches_only` are satisfiable: a 32-byte function at 0x401fe0 with a neighbour starting
     at 0x402000 — the neighbour's first byte is outside the written range. -/
